@@ -477,6 +477,26 @@ fn sweep_scenario(idx: u64, specs: &[NodeSpec]) -> Scenario {
     Scenario { property: PROP.into(), stage: "sweep".into(), nodes: vec![spec], ops, workers: 0 }
 }
 
+/// sweep-mega (fixed corpus): O(1)-per-call kinds with windows around/beyond 2^16 slots: 1.5n ticks,
+/// checkpoint, 5 journal ticks, crash + restore + replay, then n+3 ticks against the shadow
+fn mega_scenario(idx: u64, periods: &[usize]) -> Scenario {
+    let cheap: Vec<Kind> = ALL_KINDS.iter().cloned().filter(|k| gen::cheap_per_tick(*k) && k.n_periods() > 0).collect();
+    let kind = cheap[(idx as usize) % cheap.len()];
+    let p = periods[(idx as usize / cheap.len()) % periods.len()];
+    let mode = if kind.has_scalar() { Mode::Scalar } else { Mode::Bar };
+    let spec = NodeSpec { kind, params: Params::new(p, 3, 2, 2.0), mode, dflt: false };
+    let n = p as u64;
+    let g = world::StreamDesc { regime: [world::Regime::Walk, world::Regime::Saw, world::Regime::Few][(idx % 3) as usize], level: crate::sut::Fx(40.0), saw: 7, seed: idx, neg: false };
+    let ops = vec![
+        Op::Gen { n: 0, g, skip: 0, len: n + n / 2, fault: None, every: 0, reset_every: 0, clone_every: 0 },
+        Op::Ckpt { n: 0, lost: false },
+        Op::Gen { n: 0, g, skip: n + n / 2, len: 5, fault: None, every: 0, reset_every: 0, clone_every: 0 },
+        Op::Crash { n: 0, recrash: 2 },
+        Op::Gen { n: 0, g, skip: n + n / 2 + 5, len: n + 3, fault: None, every: 0, reset_every: 0, clone_every: 0 },
+    ];
+    Scenario { property: PROP.into(), stage: "sweep-mega".into(), nodes: vec![spec], ops, workers: 0 }
+}
+
 pub fn run(tier: Tier) -> i32 {
     let c = report::ctx();
     let start = Instant::now();
@@ -492,12 +512,21 @@ pub fn run(tier: Tier) -> i32 {
     let specs = sweep_specs();
     let seeded_runs = gen::scaled(seeded_runs);
     let sweep = run_stage("sweep", if gen::skip_fixed() { 1 } else { sweep_count(&specs) }, wall_cap, &mut total, &|i| sweep_scenario(i, &specs), &exec_guarded, &[777], 40);
-    let seeded = if sweep.found.is_none() {
+    let mega_periods: &[usize] = match tier {
+        Tier::Quick => &[65_535, 65_536, 65_537],
+        Tier::Thorough => &gen::MEGA_PERIODS,
+    };
+    let n_mega = 13 * mega_periods.len() as u64;
+    let mega = if sweep.found.is_none() && !gen::skip_fixed() { Some(run_stage("sweep-mega", n_mega, wall_cap, &mut total, &|i| mega_scenario(i, mega_periods), &exec_guarded, &[], 5)) } else { None };
+    let seeded = if sweep.found.is_none() && mega.as_ref().map_or(true, |m| m.found.is_none()) {
         Some(run_stage("seeded", seeded_runs, wall_cap, &mut total, &|i| generate(&mut Rng::new(run_seed(c.seed, PROP, "seeded", i)), tier), &exec_guarded, &[0, 1], 30))
     } else {
         None
     };
     let mut stages = vec![&sweep];
+    if let Some(s) = &mega {
+        stages.push(s);
+    }
     if let Some(s) = &seeded {
         stages.push(s);
     }
@@ -519,7 +548,7 @@ pub fn run(tier: Tier) -> i32 {
             wall_s: wall,
             violations,
             exhaustive: false,
-            extra: json!({"sweep": {"specs": specs.len(), "stage": sweep.json()}, "seeded": seeded.as_ref().map(|s| s.json()), "dead_fault_kinds": dead}),
+            extra: json!({"sweep": {"specs": specs.len(), "stage": sweep.json()}, "sweep_mega": {"periods": mega_periods, "stage": mega.as_ref().map(|s| s.json())}, "seeded": seeded.as_ref().map(|s| s.json()), "dead_fault_kinds": dead}),
         },
     );
     println!("C06 {:?}: sweep {} runs, seeded {} runs, {} ticks, {} situations, {:.1}s, violations={}", tier, sweep.executed, seeded.as_ref().map_or(0, |s| s.executed), total.ticks, total.situations.len(), wall, violations);
